@@ -100,7 +100,7 @@ structure Value (α : Type) where
   val : α
   unit : U
 
-inductive Err | value | unit | key | notimpl
+inductive Err | value | unit | key | notimpl | dtype
   deriving DecidableEq, Repr
 
 section valued
@@ -293,5 +293,137 @@ def paramBounds : M → List (Str × Bound)
   | .pseudoVoigt p => [(p ++ sScale, .zeroInf), (p ++ sFraction, .zeroOne)]
   | .polynomial _ _ => []
   | .composite l r p => (paramBounds l ++ paramBounds r).map (fun kb => (p ++ kb.1, kb.2))
+
+/-! ## element types
+
+scipp's dtype rules for the operations the kernels use, read off the library (probed over all
+pairs of float64 / float32 / int64 / int32): binary `+ - *` promote (any float64 → float64, else any
+float32 → float32, else any int64 → int64); `/` of two integers is float64; in-place operations keep
+the dtype of the left operand and are refused (`DTypeError`) for an integer left operand with a
+floating right operand, and for integer `/=`; `pow(·, 2)` is refused for int32, `exp` and
+`reciprocal` for integers; `python_float * v` and `v / python_float` are float64;
+`python_int * v` and `1 - v` keep floats and make integers int64. The functions below follow the
+kernels statement by statement and return the dtype of the result or the refusal. -/
+
+inductive DT | f64 | f32 | i64 | i32
+  deriving DecidableEq, Repr
+
+namespace DT
+def isFloat : DT → Bool | f64 | f32 => true | _ => false
+/-- `a + b`, `a - b`, `a * b` -/
+def promote : DT → DT → DT
+  | f64, _ | _, f64 => f64
+  | f32, _ | _, f32 => f32
+  | i64, _ | _, i64 => i64
+  | i32, i32 => i32
+/-- `a / b` -/
+def divide (a b : DT) : DT := if a.isFloat || b.isFloat then promote a b else f64
+/-- `a += b`, `a *= b` -/
+def inplace (a b : DT) : Except Err DT :=
+  if !a.isFloat && b.isFloat then .error .dtype else .ok a
+/-- `a /= b` -/
+def inplaceDiv (a : DT) : Except Err DT := if a.isFloat then .ok a else .error .dtype
+/-- `a ** 2` -/
+def pow2 : DT → Except Err DT | i32 => .error .dtype | a => .ok a
+/-- `sc.exp`, `sc.reciprocal` -/
+def floatOnly (a : DT) : Except Err DT := if a.isFloat then .ok a else .error .dtype
+/-- `python_int * a`, `1 - a` -/
+def withPyInt : DT → DT | i32 => i64 | a => a
+end DT
+
+/-- dtype of `sc.scalar(max(scale.value, 1e-15), …)`: Python's `max` hands back the float `1e-15`
+(→ float64) when it is larger, else the scale's own value -/
+def guardDT (scale : DT) (below : Bool) : DT := if below then .f64 else scale
+
+/-- `_gaussian` -/
+def gaussianDT (amplitude loc scale x : DT) (below : Bool) : Except Err DT := do
+  let _ := amplitude                      -- `amplitude / (float * scale)` is float64 whatever it is
+  let s := guardDT scale below
+  let v := DT.promote x loc               -- val = x - loc
+  let v ← DT.inplace v v                  -- val *= val
+  let t := DT.withPyInt (← DT.pow2 s)     -- -2 * scale**2
+  let _ := t
+  let v ← DT.inplaceDiv v                 -- val /= …
+  let v ← DT.floatOnly v                  -- exp
+  DT.inplace v .f64                       -- val *= amplitude / (sqrt(2π) * scale)
+
+/-- `_lorentzian` -/
+def lorentzianDT (amplitude loc scale x : DT) (below : Bool) : Except Err DT := do
+  let _ := amplitude
+  let s := guardDT scale below
+  let v := DT.promote x loc
+  let v ← DT.inplace v v
+  let v ← DT.inplace v (← DT.pow2 s)      -- val += scale**2
+  let v ← DT.floatOnly v                  -- reciprocal
+  DT.inplace v .f64                       -- val *= amplitude * scale / pi
+
+/-- `PseudoVoigtModel._call` -/
+def pseudoVoigtDT (amplitude loc scale fraction x : DT) (below belowG : Bool) : Except Err DT := do
+  let l ← lorentzianDT amplitude loc scale x below
+  let g ← gaussianDT amplitude loc .f64 x belowG     -- scale / sqrt(2 ln 2) is float64
+  pure (DT.promote (DT.promote fraction l) (DT.promote (DT.withPyInt fraction) g))
+
+/-- `PolynomialModel._call`: the accumulator has the dtype of the leading coefficient;
+`lower` = dtypes of `a_{n-1} … a_0` -/
+def polynomialDT (x hi : DT) : List DT → Except Err DT
+  | [] => .ok hi
+  | a :: rest => do
+      let v ← DT.inplace hi x             -- val *= x
+      let v ← DT.inplace v a              -- val += a_i
+      polynomialDT x v rest
+
+/-- a parameter as the dtype layer sees it: dtype, and whether `1e-15 > value` (two flags: for the
+value itself and for `value / sqrt(2 ln 2)`) -/
+structure PDT where
+  dt : DT
+  below : Bool
+  belowG : Bool
+
+def getDT (ps : List (Str × PDT)) (n : Str) : Except Err PDT :=
+  match ps.lookup n with
+  | some v => .ok v
+  | none => .error .key
+
+def callLeafDT (m : M) (x : DT) (ps : List (Str × PDT)) : Except Err DT :=
+  match m with
+  | .gaussian _ => do
+      let s ← getDT ps sScale
+      gaussianDT (← getDT ps sAmplitude).dt (← getDT ps sLoc).dt s.dt x s.below
+  | .lorentzian _ => do
+      let s ← getDT ps sScale
+      lorentzianDT (← getDT ps sAmplitude).dt (← getDT ps sLoc).dt s.dt x s.below
+  | .pseudoVoigt _ => do
+      let s ← getDT ps sScale
+      pseudoVoigtDT (← getDT ps sAmplitude).dt (← getDT ps sLoc).dt s.dt (← getDT ps sFraction).dt x s.below s.belowG
+  | .polynomial d _ => do
+      let as ← ((List.range (d + 1)).reverse).mapM (fun i => getDT ps (sCoef i))
+      match as with
+      | [] => .error .key
+      | hi :: lower => polynomialDT x hi.dt (lower.map (·.dt))
+  | .composite .. => .error .notimpl
+
+/-- the dtype of `model(x, **params)` (or the refusal), through the same key logic as `call` -/
+def callDT : M → DT → List (Str × PDT) → Except Err DT
+  | .composite l r p, x, params =>
+    if !sameKeys (params.map (·.1)) (M.paramNames (.composite l r p)) then .error .value else
+    let ps := stripKeys p params
+    match selectKeys l.paramNames ps, selectKeys r.paramNames ps with
+    | some pl, some pr => do
+        let a ← callDT l x pl
+        let b ← callDT r x pr
+        pure (DT.promote a b)
+    | _, _ => .error .key
+  | .gaussian p, x, params =>
+    if !sameKeys (params.map (·.1)) (M.paramNames (.gaussian p)) then .error .value
+    else callLeafDT (.gaussian p) x (stripKeys p params)
+  | .lorentzian p, x, params =>
+    if !sameKeys (params.map (·.1)) (M.paramNames (.lorentzian p)) then .error .value
+    else callLeafDT (.lorentzian p) x (stripKeys p params)
+  | .pseudoVoigt p, x, params =>
+    if !sameKeys (params.map (·.1)) (M.paramNames (.pseudoVoigt p)) then .error .value
+    else callLeafDT (.pseudoVoigt p) x (stripKeys p params)
+  | .polynomial d p, x, params =>
+    if !sameKeys (params.map (·.1)) (M.paramNames (.polynomial d p)) then .error .value
+    else callLeafDT (.polynomial d p) x (stripKeys p params)
 
 end ScnVerif.PeakModels
